@@ -23,7 +23,8 @@ from .. import tlc
 PID = "C17"
 KEYS4 = ["BASE", "PATH", "CH", "DEFAULTS"]
 EMPT = ["LD_LIBRARY_PATH", "EMQ", "LIBS"]          # two cleared keys and a key that refers to them
-ALLKEYS = KEYS4 + EMPT
+FALSY = ["ZERO", "FLAG", "USEZ"]                    # unquoted 0 / 0.0 / true / false and a key that refers to them
+ALLKEYS = KEYS4 + EMPT + FALSY
 
 
 def perms(names, maxlen):
@@ -113,6 +114,9 @@ def families(tier):
         # both kinds of environment with keys at once: the other kind must never matter
         fams.append(family_cfg("cross", sels=("unset", "name", "none"), interps=("bash",), namedD=["BASE", "PATH", "DEFAULTS"], namedP=["CH", "DEFAULTS"],
                                pkgD=["BASE", "DEFAULTS"], pkgP=["PATH", "CH"], dlists=[["BASE", "PATH"], ["IMP"]]))
+    # unquoted falsy YAML scalars (0, 0.0, false) are values: on the default and/or the selected platform, named and default environment
+    fams.append(family_cfg("falsy", sels=("NaMe", "unset"), namedD=FALSY, namedP=FALSY, pkgD=["ZERO", "USEZ"] + (["FLAG"] if th else []),
+                           creatable=("named@default", "named@p1", "pkg@default"), paths=("primitive", "replicated") if th else ("primitive",)))
     # what the component says about an interpreter: nothing / '' / a variable that is '' / bash -- only bash makes it an interpreter
     fams.append(family_cfg("interpreter", sels=("none", "NaMe", "unset", "environment"), interps=("absent", "empty", "varempty", "bash"),
                            namedD=["BASE", "PATH"], namedP=["LD_LIBRARY_PATH"], pkgD=["BASE"] + (["PATH"] if th else []),
@@ -126,7 +130,7 @@ def families(tier):
     fams.append(family_cfg("replicated", sels=("NaMe", "unset") + (("none",) if th else ()), interps=("absent",), namedD=["BASE", "PATH", "DEFAULTS"],
                            namedP=["PATH", "LD_LIBRARY_PATH", "DEFAULTS"], pkgD=["BASE"], pkgP=["PATH"] if th else [],
                            creatable=("named@default", "named@p1", "pkg@default") + (("pkg@p1",) if th else ()), dlists=[["BASE", "PATH"], ["IMP"]]))
-    both = ("names", "replicated") if not th else ("names", "replicated", "named-keys", "named-empties", "defaults-orders", "defaults-empties")
+    both = ("names", "replicated") if not th else ("names", "replicated", "named-keys", "named-empties", "defaults-orders", "defaults-empties", "falsy")
     if True:
         for f in fams:
             if f["name"] not in both:
@@ -145,9 +149,21 @@ def render(tokens):
             out.append(":%s.%s.%d:" % (t["k"], t["e"], t["i"]))
         elif t["t"] == "ref":
             out.append("${%s}" % t["to"] if t["br"] else "$%s" % t["to"])
+        elif t["t"] == "scalar":
+            out.append(str(SCALARS[t["y"]]))            # an unquoted YAML scalar is the text that prints it
         else:
             raise MachineryError("unexpected token %r" % t)
     return "".join(out)
+
+
+SCALARS = {"int0": 0, "float0": 0.0, "false": False, "true": True}
+
+
+def render_doc(tokens):
+    """what the package author writes: a value that is one YAML scalar is written unquoted (0, 0.0, false)"""
+    if len(tokens) == 1 and tokens[0]["t"] == "scalar":
+        return SCALARS[tokens[0]["y"]]
+    return render(tokens)
 
 
 def as_dict(x):
@@ -158,7 +174,7 @@ def build_package(case):
     envs = {"default": {}, "p1": {}, "p2": {}}
     for eid, content in as_dict(case["envs"]).items():
         n, p = eid.split("@")
-        envs[p][def_name(case, n)] = {k: render(v) for k, v in as_dict(content).items()}
+        envs[p][def_name(case, n)] = {k: render_doc(v) for k, v in as_dict(content).items()}
     # decoys: platform p2 defines both environments, and another environment exists on every platform
     decoy = lambda tag: {"BASE": ":BASE.%s.1:" % tag, "CH": ":CH.%s.1:$BASE" % tag, "PATH": ":PATH.%s.1:$PATH" % tag, "DEFAULTS": "DECOY:HOME:PATH",
                          "EXTRA": ":EXTRA.%s.1:" % tag}
@@ -420,7 +436,7 @@ def run(tier):
             which = r["violated"]
             if which == "CheckAndEmit":
                 # name the failing conjunct
-                for inv in ("ErrorIff", "NoLeak", "NoneIsEmpty", "SystemAlways", "NoForeignText", "PlatformOverDefault", "OwnBeforeLaunch", "ForeignIrrelevant", "ClearedStaysCleared"):
+                for inv in ("ErrorIff", "NoLeak", "NoneIsEmpty", "SystemAlways", "NoForeignText", "PlatformOverDefault", "OwnBeforeLaunch", "ForeignIrrelevant", "ClearedStaysCleared", "FalsyIsAValue"):
                     if tlc_run(fam, fam["text"].replace("Emit = TRUE", "Emit = FALSE").replace("INVARIANT CheckAndEmit", "INVARIANT " + inv), 4)["violated"]:
                         which = inv
                         break
